@@ -25,6 +25,7 @@ C04(i) ==
   (IF RuleStep(i) THEN
      (* the documented invalid outcome is: LAST with reward 0 and no other reason to end *)
      LET otherEnd == e.s.step_count >= TL \/ PostFull(e.s)
+                     \/ (PreOK(i) /\ EndSurrounded(Pre(i), e.a))       \* documented end: no action can be performed
          treatedInvalid == e.ts.type = LAST /\ ~otherEnd IN
      { <<"C04.masked_in_action_gets_legal_outcome", EnvMask(i)[e.a + 1] => ~treatedInvalid>>,
        <<"C04.masked_out_action_gets_invalid_outcome", ~EnvMask(i)[e.a + 1] => (e.ts.type = LAST /\ RewardExact(e, 0))>> }
